@@ -32,9 +32,10 @@ import (
 )
 
 type result struct {
-	IDs    []int64
-	Err    int64
-	Retain string
+	IDs      []int64
+	Retained []int64 // identity of every retained object re-taken after the scan ended
+	Err      int64
+	Retain   string
 }
 
 // perturb bits: 1 slow/chunked reader, 2 filter jitter, 4 consumer jitter, 8 skew (even blocks slow)
@@ -96,9 +97,9 @@ func scan1(f *pipesup.File, procs, perturb int, seed int64, cancelAt int64) resu
 	res.Err = pipesup.ErrCode(sc.Err())
 	sc.Close()
 	for i, o := range kept { // retained objects are still what they were when delivered
-		if pipesup.ObjID(o) != res.IDs[i] {
+		res.Retained = append(res.Retained, pipesup.ObjID(o))
+		if pipesup.ObjID(o) != res.IDs[i] && res.Retain == "" {
 			res.Retain = fmt.Sprintf("object %d changed after delivery: %d -> %d", i, res.IDs[i], pipesup.ObjID(o))
-			break
 		}
 	}
 	return res
@@ -113,9 +114,10 @@ func scan1(f *pipesup.File, procs, perturb int, seed int64, cancelAt int64) resu
 // (pbfrun.ElemTok) — so state leaking from block to block inside one decoder goroutine, or memory
 // of a delivered object being reused, changes the result.
 type richRes struct {
-	Toks   []uint64
-	Err    int64
-	Retain string
+	Toks     []uint64
+	Retained []uint64
+	Err      int64
+	Retain   string
 }
 
 func scanRich(data []byte, procs, perturb int, seed int64, skip [3]bool) richRes {
@@ -152,9 +154,10 @@ func scanRich(data []byte, procs, perturb int, seed int64, skip [3]bool) richRes
 		res.Err = pipesup.ErrCode(sc.Err())
 		sc.Close()
 		for i, o := range kept {
-			if pbfrun.Tok(o) != res.Toks[i] {
+			t := pbfrun.Tok(o)
+			res.Retained = append(res.Retained, t)
+			if t != res.Toks[i] && res.Retain == "" {
 				res.Retain = fmt.Sprintf("object %d (%s) changed after it was delivered: now %s", i, o.ObjectID(), canon(o))
-				break
 			}
 		}
 		ch <- res
@@ -228,6 +231,15 @@ func richCases(rng *rand.Rand, seed int64) []*wire.Case {
 			c.Tok(x)
 		}
 		c.Int(r.Err)
+		c.Len(len(r.Retained))
+		for _, x := range r.Retained {
+			c.Tok(x)
+		}
+		c.Len(len(base.Toks))
+		for _, x := range base.Toks {
+			c.Tok(x)
+		}
+		c.Int(base.Err)
 		var firstDiff interface{}
 		for i := range r.Toks {
 			if i >= len(exp) || r.Toks[i] != exp[i] {
@@ -288,6 +300,14 @@ func main() {
 	a := wire.ParseArgs()
 	rng := wire.Rng(a.Seed)
 	w := wire.NewWriter("C02", a.Seed, a.Tier)
+	// one slow consumer, run concurrently with everything else (own PRNG): it stalls for 11 s
+	// after the first object while the pipeline is full; nothing may give up on a consumer that is
+	// merely slow (a serializer-side "abandoned scanner" timeout would cut the scan)
+	var slowCh chan *wire.Case
+	if os.Getenv("VERIF_RACE_CHILD") == "" && a.Extra["stress"] == "" {
+		slowCh = make(chan *wire.Case, 1)
+		go func() { slowCh <- slowConsumerCase(wire.Rng(a.Seed*977 + 5)) }()
+	}
 	w.Rule = "generated PBF files with >= 3*procs small distinguishable blocks (or fewer blocks than decoders), procs 0..32 incl. > 10 (unbuffered channels), header or resume mode, bad/truncated last blocks; each file scanned under reader/filter/consumer timing perturbation and compared with expected elements and the procs=1 sequence; plus scans cut by a cancel issued from a decoder goroutine; non-trivial = distinct token stream"
 	nFull := int(170 * a.Scale)
 	nCut := int(60 * a.Scale)
@@ -333,7 +353,7 @@ func main() {
 			c := &wire.Case{Class: "full"}
 			c.Int(1).Int(int64(n)).Bool(!f.Header)
 			itemsToks(c, f)
-			c.Int(0).Int(int64(perturb)).Ints(r.IDs).Int(r.Err)
+			c.Int(0).Int(int64(perturb)).Ints(r.IDs).Int(r.Err).Ints(r.Retained).Ints(base.IDs).Int(base.Err)
 			if !eq(base.IDs, r.IDs) || base.Err != r.Err {
 				c.OracleFail = fmt.Sprintf("procs=%d perturb=%d delivers %v err %d, procs=1 delivers %v err %d", procs, perturb, r.IDs, r.Err, base.IDs, base.Err)
 			} else if r.Retain != "" {
@@ -473,28 +493,8 @@ func main() {
 		e.Toks[k-1] = 6
 		w.Add(e)
 	}
-	if a.Tier == "thorough" && os.Getenv("VERIF_RACE_CHILD") == "" {
-		// one slow consumer: it stalls for 11 s after the first object while the pipeline is full
-		// (nothing may give up on a consumer that is merely slow)
-		f := pipesup.GenFile(rng, 14, false)
-		ctx := context.Background()
-		sc := osmpbf.New(ctx, pipesup.NewReader(f), 2)
-		var ids []int64
-		for sc.Scan() {
-			ids = append(ids, pipesup.ObjID(sc.Object()))
-			if len(ids) == 1 {
-				time.Sleep(11 * time.Second)
-			}
-		}
-		e := pipesup.ErrCode(sc.Err())
-		sc.Close()
-		c := &wire.Case{Class: "slow-consumer"}
-		c.Int(1).Int(2).Bool(!f.Header)
-		itemsToks(c, f)
-		c.Int(0).Int(16).Ints(ids).Int(e)
-		c.Desc = map[string]interface{}{"procs": 2, "header": f.Header, "items": f.Items, "consumer": "sleeps 11 s after the first object",
-			"delivered": ids, "err": e, "expected": f.Expected()}
-		w.Add(c)
+	if slowCh != nil {
+		w.Add(<-slowCh)
 	}
 	if a.Tier == "thorough" {
 		if rep := pipesup.RaceRun("c02", a.Out, a.Seed); rep != "" {
@@ -509,6 +509,27 @@ func main() {
 		fmt.Fprintln(os.Stderr, err)
 		os.Exit(1)
 	}
+}
+
+func slowConsumerCase(rng *rand.Rand) *wire.Case {
+	f := pipesup.GenFile(rng, 14, false)
+	sc := osmpbf.New(context.Background(), pipesup.NewReader(f), 2)
+	var ids []int64
+	for sc.Scan() {
+		ids = append(ids, pipesup.ObjID(sc.Object()))
+		if len(ids) == 1 {
+			time.Sleep(11 * time.Second)
+		}
+	}
+	e := pipesup.ErrCode(sc.Err())
+	sc.Close()
+	c := &wire.Case{Class: "slow-consumer"}
+	c.Int(1).Int(2).Bool(!f.Header)
+	itemsToks(c, f)
+	c.Int(0).Int(16).Ints(ids).Int(e).Ints(ids).Ints(f.Expected()).Int(pipesup.ErrCode(nil))
+	c.Desc = map[string]interface{}{"procs": 2, "header": f.Header, "items": f.Items, "consumer": "sleeps 11 s after the first object",
+		"delivered": ids, "err": e, "expected": f.Expected()}
+	return c
 }
 
 func max0(a int) int {
